@@ -515,6 +515,13 @@ async def process_changing_cause(
         else:
             skip = True
 
+            # Nothing to do for this cause. But the object can still carry the progress records
+            # of the handlers that were in progress and are not selected anymore (e.g. the object
+            # has stopped matching their filters): drop them, since the handling cycle ends here
+            # (see below) and nothing else would ever clean them up.
+            state.purge(body=cause.body, patch=cause.patch,
+                        storage=storage, handlers=owned_handlers)
+
     # Regular causes also do some implicit post-handling when all handlers are done.
     if done or skip:
         if cause.new is not None and cause.old != cause.new:
